@@ -330,8 +330,87 @@ REVIEWED_STATE = {
 }
 
 
+_OBS_MUTATORS = {"append", "appendleft", "add", "extend", "clear", "update", "insert", "setdefault"}
+_PURE_CALLS = {"len", "isinstance", "bool", "float", "int", "str", "tuple", "list", "dict", "set", "abs", "repr", "id", "type", "hasattr", "callable", "min", "max", "sum", "sorted"}
+
+
+def _bookkeeping_only(an, f, node, new_attrs):
+    """The read `node` (an attribute that is not reviewed state) cannot influence anything the rules reviewed: it sits in a
+    statement that only writes attributes that are themselves new - `self._n += x`, `self._log.append(Record(...))`, or an
+    `if self._log is not None:` whose whole body is such statements - with no control transfer and no call other than pure
+    builtins, read-only container methods and constructors of classes new to the inventory. (Write-only bookkeeping: an opt-in
+    ledger, a counter, an audit trail.)"""
+    new_classes = {c.name for c in an.prog.classes.values() if any(b.split(".")[-1] == "NamedTuple" for b in c.ext_bases)
+                   or any("dataclass" in ast.unparse(d) for d in c.node.decorator_list)}      # record types: constructing one has no effect
+
+    def is_new_target(t):
+        while isinstance(t, ast.Subscript):
+            t = t.value
+        return isinstance(t, ast.Attribute) and t.attr in new_attrs
+
+    def calls_ok(expr, allow_mutator_on_new=False):
+        for x in ast.walk(expr):
+            if isinstance(x, ast.Call):
+                fn = x.func
+                if isinstance(fn, ast.Name) and (fn.id in _PURE_CALLS or fn.id in new_classes):
+                    continue
+                if isinstance(fn, ast.Attribute) and fn.attr in ("get", "items", "keys", "values", "copy", "isEnabledFor", "debug", "_asdict", "total_seconds"):
+                    continue
+                if allow_mutator_on_new and isinstance(fn, ast.Attribute) and fn.attr in _OBS_MUTATORS and is_new_target(fn.value) and x is expr:
+                    continue
+                return False
+            if isinstance(x, (ast.Await, ast.Yield, ast.YieldFrom, ast.NamedExpr)):
+                return False
+        return True
+
+    locals_written = set()
+
+    def confined(s):
+        if isinstance(s, ast.Pass):
+            return True
+        if isinstance(s, ast.AugAssign):
+            return is_new_target(s.target) and calls_ok(s.value)
+        if isinstance(s, ast.AnnAssign):
+            return s.value is None or (is_new_target(s.target) and calls_ok(s.value))
+        if isinstance(s, ast.Assign):
+            ok = calls_ok(s.value)
+            for t in s.targets:
+                if isinstance(t, ast.Name):
+                    locals_written.add(t.id)
+                elif not is_new_target(t):
+                    ok = False
+            return ok
+        if isinstance(s, ast.Expr):
+            v = s.value
+            if isinstance(v, ast.Constant):
+                return True
+            if isinstance(v, ast.Call):
+                return calls_ok(v, allow_mutator_on_new=True) and all(calls_ok(a) for a in list(v.args) + [k.value for k in v.keywords])
+            return False
+        if isinstance(s, ast.If):
+            return calls_ok(s.test) and all(confined(b) for b in s.body + s.orelse)
+        return False
+
+    stmt = enclosing_stmt(node)
+    good = None
+    for c in [stmt] + [p for p in parents(stmt) if isinstance(p, ast.If)]:      # innermost first
+        locals_written.clear()
+        if confined(c):
+            good = c
+            break
+    if good is None:
+        return False
+    # locals assigned inside the confined region are read only inside it
+    inside = {id(x) for x in ast.walk(good)}
+    for x in walk_function(f.node):
+        if isinstance(x, ast.Name) and isinstance(x.ctx, ast.Load) and x.id in locals_written and id(x) not in inside:
+            return False
+    return True
+
+
 def state_dependencies(ck, an, prop):
     n = 0
+    new_api = _lib.new_api_functions(an)
     for cname, (reviewed, props) in REVIEWED_STATE.items():
         if prop not in props:
             continue
@@ -352,6 +431,14 @@ def state_dependencies(ck, an, prop):
                     continue
                 n += 1
                 if e.attr not in known:
+                    if f.qual in new_api:
+                        ck.ok("DEP", "S0.new-state-dependency", f.short, e.loc, f"{cname}.{e.attr} is read by {f.short}, an accessor new to the inventory that no reviewed function reaches", construct=stmt_text(e.node))
+                        continue
+                    fam_attrs = {e2.attr for g in an.functions() for e2 in an.fa(g).effects() if e2.attr not in known and not e2.attr.startswith("__")
+                                 and any(o.replace("class:", "") in {k.name for k in fam} for o in e2.owner.split("|"))}
+                    if _bookkeeping_only(an, f, e.node, fam_attrs):
+                        ck.ok("DEP", "S0.new-state-dependency", f.short, e.loc, f"{cname}.{e.attr} is read only to update write-only bookkeeping ({stmt_text(enclosing_stmt(e.node))[:60]})", construct=stmt_text(e.node))
+                        continue
                     ck.fail("DEP", "S0.new-state-dependency", f.short, e.loc,
                             f"{f.short} reads {cname}.{e.attr}, a data attribute that is not part of the reviewed state of {cname}: a memo / cache / flag now influences the result "
                             f"(reviewed: {sorted(reviewed)[:12]}...)", construct=stmt_text(e.node))
